@@ -117,6 +117,8 @@ type C19Case struct {
 	Hit      bool      `json:"hit_header"`
 	// Warmup: the same request is served (and logged) once before on the same WAF
 	Warmup     bool   `json:"warmup,omitempty"`
+	// RespPartial: the response body is larger than a small SecResponseBodyLimit with ProcessPartial
+	RespPartial bool `json:"resp_partial,omitempty"`
 	RespStatus int    `json:"resp_status"`
 	HdrVal     string `json:"header_value"`
 	Body       string `json:"body"`
@@ -173,6 +175,7 @@ func genC19(t *rapid.T) *C19Case {
 	}
 	c.Hit = rapid.Bool().Draw(t, "hit")
 	c.Warmup = rapid.IntRange(0, 2).Draw(t, "warmup") == 0
+	c.RespPartial = rapid.IntRange(0, 3).Draw(t, "resppartial") == 0
 	c.RespStatus = rapid.SampledFrom([]int{200, 404, 500, 302, 403}).Draw(t, "rstatus")
 	c.HdrVal = rapid.SampledFrom(c19Hostile).Draw(t, "hdrval")
 	c.Body = rapid.SampledFrom(c19Hostile).Draw(t, "body")
@@ -185,6 +188,11 @@ func (c *C19Case) conf(writer, target string) string {
 		c.Engine, c.Audit, c.Pattern, c.Parts, c.Format, writer)
 	if target != "" {
 		fmt.Fprintf(&sb, "SecAuditLog %s\n", target)
+	}
+	if c.RespPartial && len(c.Body) > 0 {
+		// the response body reaches its limit: the body phase is run by the write that fills the buffer, and the
+		// connector's own ProcessResponseBody call follows
+		fmt.Fprintf(&sb, "SecResponseBodyLimit %d\nSecResponseBodyLimitAction ProcessPartial\n", 1+len(c.Body)/2)
 	}
 	if c.CtlAudit != "" {
 		fmt.Fprintf(&sb, "SecAction \"id:590,phase:1,pass,nolog,ctl:auditEngine=%s\"\n", c.CtlAudit)
@@ -409,6 +417,9 @@ func checkC19(c *C19Case) Result {
 		firedIDsGot = nil
 		res.Labels = append(res.Labels, "after-another-transaction")
 	}
+	if c.RespPartial && len(c.Body) > 0 {
+		res.Labels = append(res.Labels, "response-body-reaches-its-limit")
+	}
 	if f := doTx(txID); f != nil {
 		res.Fail = f
 		return res
@@ -422,7 +433,7 @@ func checkC19(c *C19Case) Result {
 		}
 	}
 	if fmt.Sprint(firedRules) != fmt.Sprint(exp.fired) {
-		res.Fail = failf("fired rules %v, the harness expected %v (harness model of the scenario is off)%s", firedRules, exp.fired, ctx)
+		res.Fail = failf("fired rules %v, the decision table expects %v (a rule evaluated twice, not at all, or in another order)%s", firedRules, exp.fired, ctx)
 		return res
 	}
 	capMu.Lock()
